@@ -98,7 +98,7 @@ fn gsum(u: &CU, k: &CK) -> u64 {
     s
 }
 
-//@ harness props=C11,C01,C03,C08,C09 bounds=thorough:big covers=3,4 name=GCounter: apply of any op (new, duplicate, out of order) to SPEC(K) gives SPEC(K+op); read is the sum of the largest totals; inc/inc_many derive the next dot
+//@ harness props=C11,C01,C03,C08,C09 covers=3,4 name=GCounter: apply of any op (new, duplicate, out of order) to SPEC(K) gives SPEC(K+op); read is the sum of the largest totals; inc/inc_many derive the next dot
 #[no_mangle]
 pub fn h_c11_gcounter_apply(inp: &Inp) -> u8 {
     let mut i = In::new(inp);
@@ -152,7 +152,7 @@ pub fn h_c11_gcounter_apply(inp: &Inp) -> u8 {
     }
 }
 
-//@ harness props=C11,C02,C03,C09 bounds=thorough:big name=GCounter: merge(SPEC(K1), SPEC(K2)) == SPEC(K1 u K2), commutative, read is the sum
+//@ harness props=C11,C02,C03,C09 name=GCounter: merge(SPEC(K1), SPEC(K2)) == SPEC(K1 u K2), commutative, read is the sum
 #[no_mangle]
 pub fn h_c11_gcounter_merge(inp: &Inp) -> u8 {
     let mut i = In::new(inp);
@@ -185,7 +185,7 @@ fn pnspec(up: &CU, kp: &CK, un: &CU, kn: &CK) -> PNCounter<u8> {
     pacc::from_parts(gspec(up, kp), gspec(un, kn))
 }
 
-//@ harness props=C11,C01,C03,C08,C09 bounds=thorough:big covers=3 name=PNCounter: apply of any inc/dec op to SPEC(K) gives SPEC(K+op); read = sum of increments - sum of decrements; inc/dec/inc_many/dec_many derive the next dot
+//@ harness props=C11,C01,C03,C08,C09 covers=3 name=PNCounter: apply of any inc/dec op to SPEC(K) gives SPEC(K+op); read = sum of increments - sum of decrements; inc/dec/inc_many/dec_many derive the next dot
 #[no_mangle]
 pub fn h_c11_pncounter_apply(inp: &Inp) -> u8 {
     let mut i = In::new(inp);
@@ -251,7 +251,7 @@ pub fn h_c11_pncounter_apply(inp: &Inp) -> u8 {
     }
 }
 
-//@ harness props=C11,C02,C03,C09 bounds=thorough:big name=PNCounter: merge(SPEC(K1), SPEC(K2)) == SPEC(K1 u K2), commutative
+//@ harness props=C11,C02,C03,C09 name=PNCounter: merge(SPEC(K1), SPEC(K2)) == SPEC(K1 u K2), commutative
 #[no_mangle]
 pub fn h_c11_pncounter_merge(inp: &Inp) -> u8 {
     let mut i = In::new(inp);
@@ -289,7 +289,7 @@ pub fn h_c11_pncounter_merge(inp: &Inp) -> u8 {
 /// number of ops in the register / set universes
 const NW: usize = 3;
 
-//@ harness props=C11,C01,C02,C03,C08,C09 bounds=thorough:big covers=3 name=MaxReg / MinReg: after any sequence of applies and merges the register reads the largest / smallest value ever applied (any order, duplicates)
+//@ harness props=C11,C01,C02,C03,C08,C09 covers=3 name=MaxReg / MinReg: after any sequence of applies and merges the register reads the largest / smallest value ever applied (any order, duplicates)
 #[no_mangle]
 pub fn h_c11_maxmin(inp: &Inp) -> u8 {
     let mut i = In::new(inp);
@@ -371,7 +371,7 @@ pub fn h_c11_maxmin(inp: &Inp) -> u8 {
     }
 }
 
-//@ harness props=C11,C01,C02,C03,C08,C09,C16,C17 bounds=thorough:big covers=3,4 name=LWWReg: greatest marker wins under any order / duplication / merge; validate_op and validate_merge flag exactly an equal marker with a different value
+//@ harness props=C11,C01,C02,C03,C08,C09,C16,C17 covers=3,4 name=LWWReg: greatest marker wins under any order / duplication / merge; validate_op and validate_merge flag exactly an equal marker with a different value
 #[no_mangle]
 pub fn h_c11_lww(inp: &Inp) -> u8 {
     let mut i = In::new(inp);
@@ -484,7 +484,7 @@ pub fn h_c11_lww(inp: &Inp) -> u8 {
     }
 }
 
-//@ harness props=C11,C01,C02,C03,C08,C09 bounds=thorough:big covers=3 name=GSet: reads the union of inserted elements under any order / duplication / merge
+//@ harness props=C11,C01,C02,C03,C08,C09 covers=3 name=GSet: reads the union of inserted elements under any order / duplication / merge
 #[no_mangle]
 pub fn h_c11_gset(inp: &Inp) -> u8 {
     let mut i = In::new(inp);
@@ -566,6 +566,63 @@ pub fn h_c11_gset(inp: &Inp) -> u8 {
         return 0;
     }
     if k1[e] {
+        3
+    } else {
+        1
+    }
+}
+
+//@ harness props=C18 covers=3 bounds=thorough:big name=GCounter / PNCounter reset_remove(c): every actor total covered by c is forgotten (increments and decrements alike), the rest is kept; empty clock no-op; c1 then c2 = join; idempotent
+#[no_mangle]
+pub fn h_c18_counters(inp: &Inp) -> u8 {
+    use crate::ResetRemove;
+    let mut i = In::new(inp);
+    let up = any_cu(&mut i);
+    let un = any_cu(&mut i);
+    let kp = any_ck(&mut i);
+    let kn = any_ck(&mut i);
+    let c = any_vclock(&mut i);
+    let c2 = any_vclock(&mut i);
+    if !i.ok {
+        return 2;
+    }
+    let keep = |v: u64, a: u8, c: &Vc| if v > vget(c, a) { v } else { 0 };
+    let s = pnspec(&up, &kp, &un, &kn);
+    let mut r = s.clone();
+    r.reset_remove(&c);
+    let want = pacc::from_parts(
+        gacc::from_inner(vc_from(|a| keep(learned(&up, &kp, a as usize), a, &c))),
+        gacc::from_inner(vc_from(|a| keep(learned(&un, &kn, a as usize), a, &c))),
+    );
+    if r != want {
+        return 0;
+    }
+    let mut g = gspec(&up, &kp);
+    g.reset_remove(&c);
+    if g != gacc::from_inner(vc_from(|a| keep(learned(&up, &kp, a as usize), a, &c))) {
+        return 0;
+    }
+    let mut r2 = r.clone();
+    r2.reset_remove(&c);
+    if r2 != r {
+        return 0;
+    }
+    let mut e = s.clone();
+    e.reset_remove(&VClock::new());
+    if e != s {
+        return 0;
+    }
+    let mut x = s.clone();
+    x.reset_remove(&c);
+    x.reset_remove(&c2);
+    let mut j = c.clone();
+    j.merge(c2.clone());
+    let mut y = s.clone();
+    y.reset_remove(&j);
+    if x != y {
+        return 0;
+    }
+    if r != s {
         3
     } else {
         1
